@@ -174,6 +174,9 @@ func TestVerifReplayConverge(t *testing.T) {
 		llOne    = `{"leaflist":{"entry":["a","b"]}}`
 		llTwo    = `{"leaflist":{"entry":["b","c"]}}`
 		pattern  = `{"patterntest":"hallo 12"}`
+		dkV1     = `{"doublekey":[{"key1":"k1","key2":"k2","mandato":"m","cont":{"value1":"x"}}]}`
+		dkV2     = `{"doublekey":[{"key1":"k1","key2":"k2","mandato":"m","cont":{"value2":"y"}}]}`
+		dkNone   = `{"doublekey":[{"key1":"k1","key2":"k2","mandato":"m"}]}`
 	)
 	histories := map[string][]vrcStep{
 		"shadowed value becomes active when the ruling intent is deleted": {{name: "A", prio: 10, json: ifA}, {name: "B", prio: 5, json: ifB}, {name: "B", prio: 5, json: ""}},
@@ -201,6 +204,10 @@ func TestVerifReplayConverge(t *testing.T) {
 		"unchanged shadowed intent re-applied":                            {{name: "A", prio: 10, json: ifA}, {name: "B", prio: 5, json: ifB}, {name: "A", prio: 10, json: ifA}},
 		"unchanged intent holding the ruling case re-applied":             {{name: "O1", prio: 5, json: case1}, {name: "O2", prio: 10, json: case2}, {name: "O1", prio: 5, json: case1}},
 		"unchanged intent holding the losing case re-applied":             {{name: "O1", prio: 5, json: case1}, {name: "O2", prio: 10, json: case2}, {name: "O2", prio: 10, json: case2}},
+		"neighbouring leaf of another intent in a plain container":        {{name: "A", prio: 5, json: dkV1}, {name: "B", prio: 10, json: dkV2}, {name: "A", prio: 5, json: ""}},
+		"intent shrinks next to a leaf of another intent":                 {{name: "B", prio: 10, json: dkV2}, {name: "A", prio: 5, json: dkV1}, {name: "A", prio: 5, json: dkNone}},
+		"presence holder deleted, another intent holds a child":           {{name: "X", prio: 10, json: case2E}, {name: "Y", prio: 20, json: case2}, {name: "X", prio: 10, json: ""}},
+		"presence holder deleted, a stronger intent holds a child":        {{name: "Y", prio: 5, json: case2}, {name: "X", prio: 10, json: case2E}, {name: "X", prio: 10, json: ""}},
 		"deleted intent cancelled":                                        {{name: "A", prio: 10, json: ifTwo}, {name: "A", prio: 10, json: "", cancel: true}},
 	}
 	names := make([]string, 0, len(histories))
@@ -373,6 +380,21 @@ func TestVerifReplayConverge(t *testing.T) {
 				for p := range want {
 					if p == loser || strings.HasPrefix(p, loser+"/") {
 						delete(want, p)
+					}
+				}
+			}
+			// a presence container that has content below it exists through that content: its own (empty) marker says
+			// nothing more, on the device as in the expectation
+			for _, m := range []map[string]string{want, device} {
+				for p, v := range m {
+					if v != "{}" {
+						continue
+					}
+					for q := range m {
+						if strings.HasPrefix(q, p+"/") {
+							delete(m, p)
+							break
+						}
 					}
 				}
 			}
